@@ -78,8 +78,16 @@ def gen_uid_case(rng: random.Random, tier: str, backends=('dict',)) -> dict:
             else:
                 acts.append({'sess': sess, 'kind': 'status',
                              'mailbox': rng.choice(names),
-                             'items': ['UIDNEXT', 'UIDVALIDITY',
-                                       'MAILBOXID']})
+                             'items': ['MESSAGES', 'UIDNEXT',
+                                       'UIDVALIDITY', 'MAILBOXID']})
+        if cfg['backend'] == 'maildir' and rng.random() < 0.3:
+            # the delivery agent drops a file behind the server's back,
+            # somewhere inside the step
+            t = tokens.take()
+            acts.append({'kind': 'deliver', 'mailbox': rng.choice(names),
+                         'data': make_message(t), 'token': t,
+                         'subdir': rng.choice(['new', 'new', 'cur']),
+                         'at': rng.choice([0, 0, rng.randint(1, 60)])})
         steps.append({'actions': acts, 'sched_seed': maybe_seed(rng, 0.3)})
         if any(a.get('then_expunge') for a in acts):
             steps.append({'actions': [{'sess': a['sess'], 'kind': 'expunge'}
@@ -99,6 +107,7 @@ class UidBook:
         self.maxseen: dict = {}     # key -> highest UID at last quiet point
         self.uidnext: dict = {}     # key -> highest UIDNEXT reported so far
         self.key_of: dict = {}      # name -> key at the last quiet point
+        self.count: dict = {}       # key -> messages at the last quiet point
 
 
 def observe(ctx: Ctx, book: UidBook, names: list[str], step_assigned: dict,
@@ -165,6 +174,7 @@ def observe(ctx: Ctx, book: UidBook, names: list[str], step_assigned: dict,
                 return False
             book.uidnext[key] = max(book.uidnext.get(key, 0), nxt)
         book.maxseen[key] = top
+        book.count[key] = len(uids)
     book.key_of = new_keys
     return True
 
@@ -204,6 +214,40 @@ def run_uids(case: dict, trace: bool = False) -> dict:
                     names[names.index(act['mailbox'])] = act['to']
             if i < 4:
                 continue
+            # a STATUS / SELECT answered inside the step: it counted m
+            # messages while k existed at the last quiet point, so at least
+            # m-k messages have been added since, each with a UID above
+            # everything assigned before; UIDNEXT must be above all of them
+            for act, cmd in zip(step['actions'], cmds):
+                if cmd is None or not cmd.ok or \
+                        cmd.kind not in ('status', 'select', 'examine'):
+                    continue
+                if cmd.kind == 'status':
+                    st = [r for r in cmd.untagged if r.name == b'STATUS']
+                    if not st:
+                        continue
+                    data = st[0].data[1]
+                    key = (data.get(b'MAILBOXID'), data.get(b'UIDVALIDITY'))
+                    m, nxt = data.get(b'MESSAGES'), data.get(b'UIDNEXT')
+                else:
+                    sel = cmd.extra.get('sel') or {}
+                    key = (sel.get(b'MAILBOXID'), sel.get(b'UIDVALIDITY'))
+                    ex = [r.num for r in cmd.untagged if r.name == b'EXISTS']
+                    m, nxt = (ex[0] if ex else None), sel.get(b'UIDNEXT')
+                if key not in book.count or m is None or nxt is None:
+                    continue
+                ctx.stat('uidnext_in_step')
+                floor = book.maxseen.get(key, 0) + max(0, m - book.count[key])
+                if nxt <= floor:
+                    ctx.violate('C04', 'uidnext-low', 'step %d: %s %s '
+                                'reports %d messages and UIDNEXT %d, but %d '
+                                'messages with highest UID %d existed before '
+                                'the step, so a UID >= %d exists'
+                                % (i, cmd.kind.upper(), act['mailbox'], m,
+                                   nxt, book.count[key],
+                                   book.maxseen.get(key, 0), floor),
+                                sig={'where': cmd.kind + '-in-step'})
+                    break
             what = 'after step %d' % i
             if not observe(ctx, book, names, {}, what):
                 break
@@ -283,22 +327,6 @@ def run_uids(case: dict, trace: bool = False) -> dict:
                         ctx.violate('C04', 'not-increasing', '%s: operation '
                                     'that finished first was given UIDs %s, '
                                     'a later one %s' % (what, a[1], b_[1]))
-            # UIDNEXT told by SELECT in this step
-            for act, cmd in zip(step['actions'], cmds):
-                if cmd is None or not cmd.ok or cmd.kind != 'select':
-                    continue
-                cl = ctx.clients[act['sess']]
-                sel = cl.shadow.selected or {}
-                key = (sel.get('mailboxid'), sel.get('uidvalidity'))
-                nxt = sel.get('uidnext')
-                if nxt is None or key not in book.tokens:
-                    continue
-                # every UID known *before* this step is below it
-                older = [u for u in book.tokens[key]]
-                # (UIDs assigned concurrently in this step may be above)
-                if older and nxt <= min(older + [nxt]) and False:
-                    pass
-                ctx.stat('select_uidnext_seen')
         ctx.finish()
         res = ctx.result()
         res['violations'] = [v for v in res['violations']
